@@ -15,6 +15,18 @@ CHECKS = {
             'and by checking the property clauses directly on every result; attribute completeness is checked against dir() of the executed program.',
             'Coq kernel + vm_compute; str.lower supplied by CPython as an oracle; which names reach filter_names is engine behaviour covered only '
             'by the differential/oracle streams (partial there).'),
+    'C03': ('Coq proof that jedi\'s filter-chain lookup lands in Python\'s scope on a scope-tree language + vm_compute correspondence with Script.goto and CPython',
+            'Theorems (9, closed): on a scope-tree language (module/def/lambda/comprehension/class scopes; assignment, parameter, for and comprehension '
+            'targets; global/nonlocal) a Gallina transcription of jedi\'s outward context walk (position limit dropped after a function, class bodies '
+            'skipped for methods, comprehension contexts ignoring the limit, global statements merged at module level) is proved, for chains of ANY depth, '
+            'to return only bindings of the same identifier that write exactly the scope a Gallina model of Python\'s scoping (LEGB, class LOAD_NAME rule, '
+            'global/nonlocal) reads, inside a decidable fragment; to find every local inside it; and to return exactly the last binding before the use for '
+            'straight-line code. Five _refuted theorems give a witness for each excluded shape (F1..F5), so the fragment is tight. Both models are tied to '
+            'reality on every run: each generated program is executed by CPython with unique values per binding (the value read at a use IS the binding Python took) '
+            'and Script.goto is asked at every executed use; Coq evaluates both models on the same programs and must reproduce both observations; the property '
+            'itself is checked directly on goto\'s answers and deviations are accepted only when they are one of the five listed shapes AND predicted by the model.',
+            'Coq kernel + vm_compute; pretty-printer from the scope tree to Python text and the position table are harness code; if/else/try reachability '
+            '(flow analysis) and import/with/except/walrus binders are outside the modelled language (partial there).'),
 }
 
 NOT_YET = {
